@@ -54,15 +54,17 @@ func loadCorpus() []seedFile {
 }
 
 type agg struct {
-	c        *core.Ctx
-	seeds    []seedFile
-	bnd      bounds
-	hashes   map[uint64]struct{}
-	mutHash  map[uint64]struct{}
-	evals    int64
-	maxRatio [2]float64
-	maxRatIn [2]string
-	executed int64
+	c         *core.Ctx
+	seeds     []seedFile
+	bnd       bounds
+	hashes    map[uint64]struct{}
+	mutHash   map[uint64]struct{}
+	evals     int64
+	maxRatio  [2]float64
+	maxRatIn  [2]string
+	maxFrac   [2]float64 // largest alloc/bound among inputs that stayed within the bound (limit modules excluded)
+	maxFracIn [2]string
+	executed  int64
 	// hang / allocation probe candidates: class -> best witness
 	cand       map[string]*candidate
 	samples    int
@@ -94,9 +96,16 @@ func (a *agg) addCandidate(class string, val uint64, bin []byte, cs json.RawMess
 // classify names the root-cause class of an input that made a compile
 // allocate out of proportion / die / hang: the lying count or size field found
 // by the independent walker, else the last mutation operator.
-func classify(bin []byte, ops []string) (string, uint64, string) {
+func classify(bin []byte, ops []string, errText string) (string, uint64, string) {
 	if l, ok := FindLiar(bin); ok {
 		return l.Class, l.Val, fmt.Sprintf("field %s at offset %d declares %d with %d input bytes left", l.Class, l.Off, l.Val, l.Rem)
+	}
+	// the decoder rejected the input with an error of section X after allocating out of
+	// proportion: the allocation was made for something that section declares
+	if strings.HasPrefix(errText, "section ") {
+		if i := strings.IndexByte(errText, ':'); i > 8 {
+			return "in-section-" + errText[8:i], 0, "no lying count/size field found by the walker; the decoder rejected the input in section " + errText[8:i]
+		}
 	}
 	if len(ops) > 0 {
 		return "after-" + ops[len(ops)-1], 0, "no lying count/size field found; last mutation " + ops[len(ops)-1]
@@ -152,8 +161,8 @@ func (a *agg) violate(sig, detail string, w func() map[string]any) {
 	a.c.Violate(sig, detail, w())
 }
 
-func (a *agg) allocViolation(cs json.RawMessage, bin []byte, ops []string, combo, detail string) {
-	class, val, why := classify(bin, ops)
+func (a *agg) allocViolation(cs json.RawMessage, bin []byte, ops []string, combo, detail, errText string) {
+	class, val, why := classify(bin, ops, errText)
 	a.c.Count("alloc_violations", 1)
 	a.c.Count("alloc_violation_class_"+class, 1)
 	a.addCandidate(class, val, bin, cs, "alloc")
@@ -208,9 +217,9 @@ func (a *agg) crash(cs json.RawMessage, cr *core.Crash) {
 	oom := bytes.Contains(log, []byte("out of memory")) || bytes.Contains(log, []byte("cannot allocate memory"))
 	switch {
 	case abort != nil && string(abort[1]) == "alloc":
-		a.allocViolation(cs, bin, ops, combo, "compile aborted by the allocation sentinel: "+string(abort[3]))
+		a.allocViolation(cs, bin, ops, combo, "compile aborted by the allocation sentinel: "+string(abort[3]), "")
 	case abort != nil && string(abort[1]) == "timeout" && phase == "compile":
-		class, val, _ := classify(bin, ops)
+		class, val, _ := classify(bin, ops, "")
 		a.addCandidate(class, val, bin, cs, "timeout")
 		c.Count("compile_step_timeouts", 1)
 		c.Inconclusive("compile-timeout")
@@ -221,11 +230,15 @@ func (a *agg) crash(cs json.RawMessage, cr *core.Crash) {
 	case cr.Kind == "timeout":
 		c.Inconclusive("batch-watchdog")
 	case oom && phase == "compile":
-		a.allocViolation(cs, bin, ops, combo, fmt.Sprintf("child died during the compile with RLIMIT_AS=%d: %s", uint64(rlimitAS), cr.Detail))
+		a.allocViolation(cs, bin, ops, combo, fmt.Sprintf("child died during the compile with RLIMIT_AS=%d: %s", uint64(rlimitAS), cr.Detail), "")
 	case oom && phase == "exec":
 		what := "other"
-		if bytes.Contains(bin, []byte{0xfc, 0x0f}) {
-			what = "table.grow"
+		if w := Walk(bin); w.Hdr {
+			for i := range w.Sites {
+				if st := &w.Sites[i]; st.Kind == kSubOpcode && st.Val == 15 && st.Off > 0 && bin[st.Off-1] == 0xfc {
+					what = "table.grow"
+				}
+			}
 		}
 		a.violate("exec:out-of-memory:"+what, "child died of memory exhaustion while running an accepted module ("+combo+"): "+cr.Detail,
 			func() map[string]any { return witness(cs, bin, ops, map[string]any{"combo": combo, "crash": cr}) })
@@ -270,6 +283,16 @@ func (a *agg) add(cs json.RawMessage, ic *inCase, o *outCase, calibrating bool) 
 		case 0:
 			a.evals++
 			c.Count("rejected_"+comboName(i), 1)
+		}
+		if o.Acc[i] >= 0 && a.bnd.Set && !o.AllocViol {
+			lim := a.bnd.limit(o.Len, i%2)
+			if o.Acc[i] == 0 {
+				lim = a.bnd.rejectedLimit(o.Len)
+			}
+			if f := float64(o.Alloc[i]) / float64(lim); f > a.maxFrac[i%2] && ic.K != "lim" {
+				a.maxFrac[i%2] = f
+				a.maxFracIn[i%2] = fmt.Sprintf("%s ops=%v (%d bytes, %d allocated, bound %d, %s)", string(cs), o.Ops, o.Len, o.Alloc[i], lim, comboName(i))
+			}
 		}
 		if o.Acc[i] >= 0 {
 			r := float64(o.Alloc[i]) / float64(o.Len+1)
@@ -326,7 +349,7 @@ func (a *agg) add(cs json.RawMessage, ic *inCase, o *outCase, calibrating bool) 
 			bin, ops, _ = buildInput(ic, a.seeds)
 		}
 		if f.Sig == "ALLOC" {
-			a.allocViolation(cs, bin, ops, f.Combo, f.Detail)
+			a.allocViolation(cs, bin, ops, f.Combo, f.Detail, f.Err)
 			continue
 		}
 		c.Count("findings_"+strings.SplitN(f.Sig, ":", 3)[0], 1)
@@ -347,8 +370,8 @@ func (a *agg) add(cs json.RawMessage, ic *inCase, o *outCase, calibrating bool) 
 				for e := 0; e < 2; e++ {
 					if o.Acc[fi*2+e] == 0 {
 						b, _, _ := buildInput(ic, a.seeds)
-						c.Violate("wgen-rejected:"+engNames[e]+":"+crashSig(strings.Join(o.Errs, "|")),
-							"by-construction-valid module rejected under "+comboName(fi*2+e)+": "+strings.Join(o.Errs, " | "),
+						c.Violate("wgen-rejected:"+engNames[e]+":"+crashSig(o.ErrOf[fi*2+e]),
+							"by-construction-valid module rejected under "+comboName(fi*2+e)+": "+o.ErrOf[fi*2+e],
 							witness(cs, b, nil, map[string]any{"combo": comboName(fi*2 + e)}))
 					}
 				}
@@ -548,6 +571,10 @@ func run(c *core.Ctx) int {
 		engNames[0]: map[string]any{"ratio": a.maxRatio[0], "input": a.maxRatIn[0]},
 		engNames[1]: map[string]any{"ratio": a.maxRatio[1], "input": a.maxRatIn[1]},
 	})
+	c.Extra("closest_to_allocation_bound_without_violating", map[string]any{
+		engNames[0]: map[string]any{"fraction_of_bound": a.maxFrac[0], "input": a.maxFracIn[0]},
+		engNames[1]: map[string]any{"fraction_of_bound": a.maxFrac[1], "input": a.maxFracIn[1]},
+	})
 	c.Extra("corpus", map[string]any{"distinct_files": len(seeds), "accepted_under_some_feature_set": len(accSeeds), "dirs": corpusDirs})
 	c.Extra("feature_sets", fsNames)
 	c.Extra("distinct_inputs", len(a.hashes))
@@ -602,18 +629,20 @@ func (a *agg) probes(env []string, accSeeds []int) {
 		combo int
 	}
 	var info []pinfo
+	probed := map[string]bool{}
 	for _, k := range classes {
 		cd := a.cand[k]
-		if len(cd.Bin) > 1<<16 {
+		if len(cd.Bin) > 1<<16 || probed[string(cd.Bin)] {
 			continue
 		}
+		probed[string(cd.Bin)] = true
 		for _, combo := range []int{8, 9} {
 			cases = append(cases, core.J(inCase{K: "lit", Hex: hex.EncodeToString(cd.Bin), Combo: combo, Control: hex.EncodeToString(control(len(cd.Bin)))}))
 			info = append(info, pinfo{k, combo})
 		}
 	}
 	envP := append(append([]string(nil), env...), fmt.Sprintf("C03_CASE_BUDGET_S=%d", budget))
-	res := core.RunCases(c, "probe", cases, core.ChildOpts{Batch: 1, TimeoutS: budget + 60, RlimitAS: rlimitAS, Env: envP})
+	res := core.RunCases(c, "probe", cases, core.ChildOpts{Batch: 1, TimeoutS: 8*budget + 90, RlimitAS: rlimitAS, Env: envP})
 	table := []map[string]any{}
 	for i, r := range res {
 		row := map[string]any{"class": info[i].class, "declared": a.cand[info[i].class].Val, "combo": comboName(info[i].combo), "input_len": len(a.cand[info[i].class].Bin), "found_by": a.cand[info[i].class].Why}
